@@ -106,18 +106,56 @@ def raw(v):
     return sx.show(v)
 
 
-def field_same(f, x, y):
-    """equality in the sense of the field's strategy (C04)"""
+def peq_value(sh, x, y):
+    """the derived `PartialEq` of the shape's type (looks at skipped fields too; f64: -0.0 == 0.0, NaN != NaN)"""
+    if sh['t'] == 'enum':
+        if int(x[1]) != int(y[1]):
+            return False
+        v = sh['variants'][int(x[1])]
+        if v[0] == 'ftuple':
+            return all(shapes.eqf(p, q) for p, q in zip(x[2:], y[2:]))
+        return [int(t) for t in x[2:]] == [int(t) for t in y[2:]]
+    return all(peq_field(f, x[i + 1], y[i + 1]) for i, f in enumerate(sh['fields']))
+
+
+def peq_field(f, x, y):
     k = f['k']
-    if k in ('plain', 'recurse', 'ropt', 'ordered'):
+    if k == 'plain':
+        r = f.get('rty', 'u32')
+        if r == 'f64': return shapes.eqf(x, y)
+        if r == 'struct': return peq_value(f['inner'], x, y)
+        if r == 'enum': return peq_value(f['en'], x, y)
+        return raw(x) == raw(y)
+    if k == 'recurse': return peq_value(f['inner'], x, y)
+    if k == 'ropt':
+        return (x == 'none') == (y == 'none') and (x == 'none' or peq_value(f['inner'], x[1], y[1]))
+    if k == 'ordered': return raw(x) == raw(y)
+    if k == 'unord':
+        if f['cont'] in ('HashSet', 'BTreeSet'): return sorted(map(int, x[1:])) == sorted(map(int, y[1:]))
+        return raw(x) == raw(y)
+    if k == 'map':
+        return {int(a[0]): int(a[1]) for a in x[1:]} == {int(a[0]): int(a[1]) for a in y[1:]}
+    if k == 'recmap':
+        dx = {int(a[0]): a[1] for a in x[1:]}; dy = {int(a[0]): a[1] for a in y[1:]}
+        return set(dx) == set(dy) and all(peq_value(f['inner'], dx[q], dy[q]) for q in dx)
+    raise ValueError(k)
+
+
+def field_same(f, x, y):
+    """equality in the sense of the field's strategy (C04): the type's own `==` for plain / nested fields"""
+    k = f['k']
+    if k in ('plain', 'recurse', 'ropt'):
+        return peq_field(f, x, y)
+    if k == 'ordered':
         return raw(x) == raw(y)
     if k == 'unord':
         return sorted(map(int, x[1:])) == sorted(map(int, y[1:]))
     if k == 'map':
         return {int(a[0]): int(a[1]) for a in x[1:]} == {int(a[0]): int(a[1]) for a in y[1:]}
     if k == 'recmap':
-        dx = {int(a[0]): raw(a[1]) for a in x[1:]}; dy = {int(a[0]): raw(a[1]) for a in y[1:]}
-        return dx == dy if f['mode'] == 'kv' else set(dx) == set(dy)
+        dx = {int(a[0]): a[1] for a in x[1:]}; dy = {int(a[0]): a[1] for a in y[1:]}
+        if set(dx) != set(dy): return False
+        return f['mode'] != 'kv' or all(peq_value(f['inner'], dx[q], dy[q]) for q in dx)
     raise ValueError(k)
 
 
@@ -125,9 +163,16 @@ def match_field(f, a, b, r, nested):
     """C01: r is b in the sense of the strategy; returns None or a failure text"""
     k = f['k']
     cf = lambda v: shapes.canon_field(f, v)
-    if k in ('plain', 'ordered', 'unord', 'map'):
+    if k == 'plain':
+        # b's value -- or still the base's value when that is `==` to b's (nothing is sent then)
+        if cf(r) == cf(b) or (cf(r) == cf(a) and peq_field(f, a, b)):
+            return None
+        return f'field is {raw(r)} but b holds {raw(b)}'
+    if k in ('ordered', 'unord', 'map'):
         return None if cf(r) == cf(b) else f'field is {raw(r)} but b holds {raw(b)}'
     if k == 'recurse':
+        if peq_field(f, a, b):
+            return None if raw(r) == raw(a) else f'nested values are == but the field changed from {raw(a)} to {raw(r)}'
         return match_value(f['inner'], a, b, r, True)
     if k == 'ropt':
         if (r == 'none') != (b == 'none'):
@@ -136,6 +181,8 @@ def match_field(f, a, b, r, nested):
             return None
         if a == 'none':
             return None if shapes.canon_value(f['inner'], r[1]) == shapes.canon_value(f['inner'], b[1]) else 'None -> Some did not take b\'s value'
+        if peq_value(f['inner'], a[1], b[1]):
+            return None if raw(r) == raw(a) else f'nested values are == but the field changed from {raw(a)} to {raw(r)}'
         return match_value(f['inner'], a[1], b[1], r[1], True)
     if k == 'recmap':
         da = {int(t[0]): t[1] for t in a[1:]}; db = {int(t[0]): t[1] for t in b[1:]}; dr = {int(t[0]): t[1] for t in r[1:]}
@@ -148,7 +195,10 @@ def match_field(f, a, b, r, nested):
             if key not in da:
                 if cr != cb: return f'new key {key} does not carry current\'s value'
             elif f['mode'] == 'kv':
-                m = match_value(f['inner'], da[key], db[key], dr[key], True)
+                if peq_value(f['inner'], da[key], db[key]):
+                    m = None if cr == shapes.canon_value(f['inner'], da[key]) else 'retained key with == values was changed'
+                else:
+                    m = match_value(f['inner'], da[key], db[key], dr[key], True)
                 if m: return f'key {key}: ' + m
             else:
                 ca = shapes.canon_value(f['inner'], da[key])
@@ -161,7 +211,10 @@ def match_value(sh, a, b, r, nested=False):
     if isinstance(r, str) and r == 'panic':
         return 'panicked'
     if sh['t'] == 'enum':
-        return None if shapes.canon_value(sh, r) == shapes.canon_value(sh, b) else 'enum value is not b'
+        cr = shapes.canon_value(sh, r)
+        if cr == shapes.canon_value(sh, b) or (cr == shapes.canon_value(sh, a) and peq_value(sh, a, b)):
+            return None
+        return 'enum value is not b'
     for i, f in enumerate(sh['fields']):
         x, y, z = a[i + 1], b[i + 1], r[i + 1]
         if f['skip']:
@@ -180,7 +233,7 @@ def equiv_value(sh, x, y):
     if isinstance(y, str) and y == 'panic':
         return 'panicked'
     if sh['t'] == 'enum':
-        return None if raw(x) == raw(y) else 'enum values differ'
+        return None if (raw(x) == raw(y) or peq_value(sh, x, y)) else 'enum values differ'
     for i, f in enumerate(sh['fields']):
         if f['skip']:
             continue
@@ -201,6 +254,8 @@ def equiv_value(sh, x, y):
                 for key in da:
                     m = equiv_value(f['inner'], da[key], db[key])
                     if m: m = f'key {key}: ' + m; break
+        elif k == 'plain':
+            m = None if (shapes.canon_field(f, a) == shapes.canon_field(f, b) or peq_field(f, a, b)) else f'{raw(a)} vs {raw(b)}'
         else:
             m = None if shapes.canon_field(f, a) == shapes.canon_field(f, b) else f'{raw(a)} vs {raw(b)}'
         if m:
@@ -216,13 +271,13 @@ def skipped_of(sh, v):
 
 def expected_fields(sh, a, b):
     if sh['t'] == 'enum':
-        return [] if raw(a) == raw(b) else [0]
+        return [] if peq_value(sh, a, b) else [0]
     return [i for i, f in enumerate(sh['fields']) if not f['skip'] and not field_same(f, a[i + 1], b[i + 1])]
 
 
 # ------------------------------------------------------------------ evaluation of `pair` rows
 
-RES_KEYS = ('apply', 'applyref', 'applymut', 'single', 'applyrefd', 'follow', 'followref')
+RES_KEYS = ('apply', 'applyref', 'applymut', 'single', 'applyrefd', 'follow', 'followref', 'fapplyref', 'fapplymut', 'fsingle')
 
 
 def evaluate_pairs(res, shs, reqs, rows, model_out, want):
@@ -300,6 +355,10 @@ def evaluate_pairs(res, shs, reqs, rows, model_out, want):
             vals = [('panic' if sx.field(r, k)[0] == 'panic' else repr(shapes.canon_value(sh, sx.field(r, k)[0]))) for k in ('apply', 'applyref', 'applymut', 'single')]
             if len(set(vals)) != 1:
                 fails.append(('C06', 'apply / apply_ref / apply_mut / repeated apply_single disagree: ' + ' | '.join(v[:120] for v in vals)))
+            # the same on a base the diff was NOT computed from (the third value of the request)
+            fvals = [('panic' if sx.field(r, k)[0] == 'panic' else repr(shapes.canon_value(sh, sx.field(r, k)[0]))) for k in ('follow', 'fapplyref', 'fapplymut', 'fsingle')]
+            if len(set(fvals)) != 1:
+                fails.append(('C06', 'on a base the diff was not computed from, apply / apply_ref / apply_mut / repeated apply_single disagree: ' + ' | '.join(v[:120] for v in fvals)))
             if sx.field(r, 'pure') != ['true']:
                 fails.append(('C06', 'an argument was modified by diff / diff_ref / apply_ref'))
         if 'C13' in want and sh['t'] == 'struct':
